@@ -5,3 +5,4 @@
 -/
 import GeoProofs.Props.C04
 import GeoProofs.Props.C04Indep
+import GeoProofs.Props.C04Float
